@@ -254,6 +254,8 @@ def _(I, a):
 def _(I, a):
     p = s_of(a[0])
     I.env.events.append(('open', p))
+    if p == '/dev/stdin':
+        return ok(Opaque('stdin'))   # not a regular file: reads deliver standard input
     if p not in I.env.files:
         return err(Opaque('io_error'))
     return ok(FileObj(p, 'r'))
